@@ -5,7 +5,8 @@ import MidnightZK.Model.C03.VK
 Mirrors
 * `proofs/src/plonk/circuit.rs: ConstraintSystem::pinned` (every member of `PinnedConstraintSystem` is the field of
   the same name — checked by the translator) and `impl Debug for PinnedConstraintSystem` (`debug_struct` with the
-  fields of `Gen.csDebugOrder`, those flagged `true` only `if *num_challenges > &0`);
+  fields of `Gen.csDebugOrder`, those flagged `true` only under the condition `Gen.csDebugPhaseCondition`:
+  a challenge exists OR some advice column is not in the first phase);
 * `impl Debug for Advice` (the phase of a column is printed inside `advice_queries` only if it is not the first phase);
 * `proofs/src/plonk/mod.rs: VerifyingKey::from_parts`: `format!("{:?}", vk.cs().pinned())` is appended to the buffer
   hashed into `transcript_repr` (`vkHashInput`, component `cs`).
@@ -75,14 +76,26 @@ def fieldValue (v : CSView) : String → Option FieldVal
   | "minimum_degree" => some (.str v.minimumDegree)
   | _ => none
 
-/-- Names of the fields `Debug for PinnedConstraintSystem` prints for a system with `nch` challenges, in order. -/
-def csDebugFieldNames (nch : Nat) : List String :=
-  (Gen.csDebugOrder.filter fun f => !f.2 || decide (0 < nch)).map (·.1)
+/-- One disjunct of the condition of the multi-phase block (`Gen.csDebugPhaseCondition`, regenerated). -/
+def phaseCondHolds (nch : Nat) (advicePhase : List Nat) : String → Bool
+  | "num_challenges>0" => decide (0 < nch)
+  | "advice_phase_not_first" => advicePhase.any (· != 0)
+  | _ => false
+
+/-- Are `num_challenges`, `advice_column_phase`, `challenge_phase` printed? (`if *num_challenges > &0 ||
+advice_column_phase.iter().any(|p| *p != FirstPhase.to_sealed())` since the repair; the disjuncts are re-read from
+the source) -/
+def showPhaseFields (nch : Nat) (advicePhase : List Nat) : Bool :=
+  Gen.csDebugPhaseCondition.any (phaseCondHolds nch advicePhase)
+
+/-- Names of the fields `Debug for PinnedConstraintSystem` prints, in order (`sh` = the multi-phase block is shown). -/
+def csDebugFieldNames (sh : Bool) : List String :=
+  (Gen.csDebugOrder.filter fun f => !f.2 || sh).map (·.1)
 
 /-- What `format!("{:?}", cs.pinned())` prints, as (name, value) pairs: the `cs` component of the hash input is a
 function of this list. -/
 def pinnedFields (v : CSView) : List (String × Option FieldVal) :=
-  (csDebugFieldNames v.challengePhase.length).map fun n => (n, fieldValue v n)
+  (csDebugFieldNames (showPhaseFields v.challengePhase.length v.advicePhase)).map fun n => (n, fieldValue v n)
 
 /-- The part of the constraint system the VERIFIER's control flow reads (`parse_trace`, `verify_algebraic_constraints`):
 all of it — in particular `advice_column_phase` decides in which order the advice commitments are read
